@@ -580,6 +580,54 @@ def split_top(s):
 
 # ---- symbolic execution: decision trees
 _HELPERS = {}     # name -> (params, body) of the small functions of the translation unit that calls may be replaced by
+_CONSTS = {}      # file-scope integer constants (constexpr / const / #define)
+
+
+def c_file_consts(src):
+    """{name: ('num', v)} of the integer constants defined at file scope: `static constexpr size_t N = 4;`, `#define N 4`"""
+    out = {}
+    s = re.sub(r'/\*.*?\*/', ' ', src, flags=re.S)
+    s = re.sub(r'//[^\n]*', ' ', s)
+    found = [(m.group(1), m.group(2)) for m in re.finditer(r'^[ \t]*#[ \t]*define[ \t]+([A-Za-z_]\w*)[ \t]+([^\n]+)$', s, flags=re.M)]
+    found += [(m.group(1), m.group(2)) for m in re.finditer(
+        r'(?:^|[;{}])\s*(?:static\s+|inline\s+)*(?:constexpr|const)\s+(?:static\s+)?[\w:]+(?:\s+[\w:]+)*\s+([A-Za-z_]\w*)\s*=\s*([^;{}]+);', s)]
+    for name, val in found:
+        try:
+            e = c_fold(c_subst0(CParser(c_tokens(val)).expr(), out))
+        except Untranslatable:
+            continue
+        if e[0] == 'num' or (e[0] == 'un' and e[1] == '-' and e[2][0] == 'num'):
+            out[name] = e
+    return out
+
+
+def c_fold(e):
+    """integer constant folding: 4 - 1 → 3, (x + 4) - 1 → x + 3, ~3 → -4"""
+    if not isinstance(e, tuple) or not e:
+        return e
+    if e[0] == 'bin':
+        l, r = c_fold(e[2]), c_fold(e[3])
+        op = e[1]
+        if l[0] == 'num' and r[0] == 'num':
+            a, b = l[1], r[1]
+            v = {'+': a + b, '-': a - b if a >= b else None, '*': a * b, '/': a // b if b else None, '%': a % b if b else None}.get(op)
+            if v is not None:
+                return ('num', v)
+        if op in ('+', '-') and r[0] == 'num' and l[0] == 'bin' and l[1] in ('+', '-') and l[3][0] == 'num':
+            # (x ± a) ± b
+            a = l[3][1] if l[1] == '+' else -l[3][1]
+            b = r[1] if op == '+' else -r[1]
+            if a + b >= 0:
+                return ('bin', '+', l[2], ('num', a + b)) if a + b else l[2]
+        if op == '+' and l[0] == 'num' and r[0] != 'num':
+            return c_fold(('bin', '+', r, l)) if r[0] == 'bin' and r[1] in ('+', '-') and r[3][0] == 'num' else ('bin', op, l, r)
+        return ('bin', op, l, r)
+    if e[0] == 'un':
+        x = c_fold(e[2])
+        if e[1] == '~' and x[0] == 'num':
+            return ('un', '-', ('num', x[1] + 1))
+        return ('un', e[1], x)
+    return tuple(c_fold(a) if isinstance(a, tuple) else a for a in e)
 
 
 def c_helpers(src):
@@ -644,7 +692,7 @@ def c_inline(e, depth=0):
 
 
 def c_subst(e, env):
-    return c_inline(c_subst0(e, env))
+    return c_fold(c_inline(c_subst0(e, env)))
 
 
 def c_subst0(e, env):
@@ -654,7 +702,7 @@ def c_subst0(e, env):
     if k == 'num':
         return e
     if k == 'id':
-        return env.get(e[1], e)
+        return env[e[1]] if e[1] in env else _CONSTS.get(e[1], e)
     if k == 'call':
         return ('call', c_subst0(e[1], env) if e[1][0] != 'id' else e[1], tuple(c_subst0(a, env) for a in e[2]))
     if k == 'idx':
@@ -927,6 +975,8 @@ def analyse_next_cut(src):
     if len(params) != 2 or None in params:
         raise Untranslatable('next_cut: expected (buffer, final)')
     _HELPERS.clear()
+    _CONSTS.clear()
+    _CONSTS.update(c_file_consts(src))
     _HELPERS.update({k: v for k, v in c_helpers(src).items() if k != 'next_cut'})
     pbuf, pfinal = params
     mn, mx = _member_names(src)
@@ -999,6 +1049,9 @@ def analyse_next_cut(src):
     if cond is None or step is None:
         raise Untranslatable('next_cut: scan loop without condition / step')
     # loop variable and stride
+    if step is not None and step[0] == 'assign':
+        step = ('assign', step[1], step[2], c_subst(step[3], {k: v for k, v in envs[0].items() if v[0] == 'num'}) if step[3][0] != 'bin' else
+                c_fold(c_replace_ids(step[3], {k: v for k, v in envs[0].items() if v[0] == 'num' and k != step[2][1]})))
     if step[0] == 'assign' and step[2][0] == 'id' and step[1] == '+=' and step[3][0] == 'num':
         ivar, stride = step[2][1], step[3][1]
     elif step[0] == 'assign' and step[2][0] == 'id' and step[1] == '=' and step[3][0] == 'bin' and step[3][1] == '+' \
@@ -1081,6 +1134,14 @@ def _norm_tree(t, f):
     if t[0] == 'ret':
         return ('ret', f(t[1]) if t[1] is not None else None)
     return t
+
+
+def c_replace_ids(e, env):
+    if not isinstance(e, tuple) or not e:
+        return e
+    if len(e) == 2 and e[0] == 'id':
+        return env[e[1]] if e[1] in env else _CONSTS.get(e[1], e)
+    return tuple(c_replace_ids(a, env) if isinstance(a, tuple) else a for a in e)
 
 
 def _ids(x):
